@@ -32,7 +32,7 @@ ASSUMPTIONS = ["SimTransport mirrors asyncio's selector transport (write after l
                "desynchronised by construction: probes are repeated up to 65535 bytes + 3 frames",
                "a stalled (not reading) peer is always un-stalled or reset before the oracle runs"]
 REQUIRED_OBS = ["recovered", "resets_seen", "fault_atoms_effective", "probe_cmd_written",
-                "probe_status_delivered"]
+                "probe_status_delivered", "api_level_recoveries"]
 BUDGET = {"quick": 100, "thorough": 1500}
 
 EPS = 1e-6
@@ -67,6 +67,26 @@ SENDS = [[], [["send", "zone_ctrl", "idem", "inline"]], [["send", "ac_ctrl", "id
          [["send", "quick_timer", "nonidem", "t1"], ["send", "zone_ctrl", "idem", "t2"]]]
 GAPS = [[], [["turns", 1]], [["turns", 2]], [["adv", EPS]], [["adv", 2.0]], [["adv", 2.0 + EPS]],
         [["q"]]]
+
+
+API_ATOMS = [
+    [("net", "refuse", 0.0), ("fin",)],
+    [("net", "accept", 0.5), ("rst",)],
+    [("net", "accept", 2.0 + EPS), ("fin",)],
+    [("fin",)], [("rst",)], [("garbage",)], [("badcrc",)], [("trunc",)],
+    [("trunc",), ("fin",)],
+    [("wfail", 1), ("cmd", "ac_on")], [("wfail", 2), ("cmd", "zone_damper")],
+    [("wfail", 3), ("cmd", "ac_toggle")],
+    [("cmd", "zone_setpoint_300")],        # struct.error kind, through the public API
+    [("cmd", "zone_setpoint_nan")],        # ValueError kind (AT5) / refused locally (AT4)
+    [("fin",), ("cmd", "ac_on"), ("cmd", "zone_damper")],
+    [("rst",), ("cmd", "ac_on")],
+    [("sub_raise",), ("status_change",)],
+    [("net", "refuse", 0.0), ("net", "refuse", 0.0), ("rst",), ("cmd", "ac_on")],
+    [("net", "accept", 0.0, 2), ("fin",)],   # write fault on the refresh requests
+    [("net", "accept", 0.0, 1), ("net", "accept", 0.0, 4), ("rst",)],
+    [("cmd", "ac_on")], [("status_change",)],
+]
 
 
 def expand(gen, ops):
@@ -130,6 +150,22 @@ def cases(tier, seed):
                     for g1 in (GAPS[0], GAPS[1], GAPS[4]):
                         yield {"gen": gen, "ops": [["q"]] + build([(a1, s1, g1),
                                                                     (a2, s2, GAPS[0])])}
+    # API level: the same kind of fault scripts with handshake, refresh and heartbeat
+    # traffic present (the API's own subscribers send messages from inside the socket's
+    # notifications)
+    m = 500 if tier == "quick" else 25000
+    for gen in (4, 5):
+        for atom in API_ATOMS:
+            for gap in ([], [["adv", EPS]], [["adv", 2.0]], [["q"]]):
+                yield {"k": "api", "gen": gen, "ops": [list(x) for x in atom] + gap}
+    for i in range(m):
+        depth = rnd.choice([2, 2, 3, 4])
+        ops = []
+        for _ in range(depth):
+            ops += [list(x) for x in rnd.choice(API_ATOMS)] + rnd.choice(
+                [[], [["adv", EPS]], [["adv", 0.5]], [["adv", 2.0]], [["adv", 2.0 + EPS]],
+                 [["q"]], [["adv", 301.0]]])
+        yield {"k": "api", "gen": rnd.choice((4, 5)), "ops": ops, "seed": rnd.randrange(1 << 30)}
     n = 3000 if tier == "quick" else 120000
     for i in range(n):
         depth = rnd.choice([2, 2, 3, 3, 4, 5])
@@ -334,9 +370,197 @@ def run_fidelity(case):
     raise RuntimeError(f"SimNet fidelity mismatch in scenario {case['scenario']}: {last}")
 
 
+def run_api(case):
+    """API-level fault script + recovery oracle (status change reflected by the getters, a
+    public command written, single connection)."""
+    import pyairtouch.api as api
+    from .. import apiworld as AW
+    from .. import console as C
+    gen = case["gen"]
+    out = {}
+    viol, obs = [], {}
+
+    async def main(loop, net, log):
+        w = AW.ApiWorld(gen, loop, net, log, C.default_installation(gen, 1, (2,)))
+        if await w.init() is not True:
+            out["init"] = False
+            return
+        await quiesce(loop)
+        ac = w.ac
+        zone = w.zone(0)
+        raising = H.Sub(log, "raising", raises=True)
+
+        async def cmd(name):
+            try:
+                if name == "ac_on":
+                    await ac.set_power(api.AcPowerControl.TURN_ON)
+                elif name == "ac_toggle":
+                    await ac.set_power(api.AcPowerControl.TOGGLE)
+                elif name == "zone_damper":
+                    await zone.set_damper_percentage(40)
+                elif name == "zone_setpoint_300":
+                    await zone.set_target_temperature(300)
+                elif name == "zone_setpoint_nan":
+                    await zone.set_target_temperature(float("nan"))
+            except (ValueError, psock_errors) as e:
+                log.add("API.raise", name=name, exc=repr(e))
+
+        def bump():
+            st = w.inst["acs"][0]["status"]
+            if gen == 4:
+                st["set_point"] = 17 + (st["set_point"] - 16) % 12
+            else:
+                st["sp_raw"] = 70 + (st["sp_raw"] - 60) % 120
+
+        for op in expand(gen, case["ops"]):
+            o = op[0]
+            c = net.current()
+            if o == "net":
+                net.script.append(tuple(op[1:]))
+            elif o == "adv":
+                await asyncio.sleep(op[1])
+            elif o == "q":
+                await quiesce(loop)
+            elif o == "cmd":
+                await cmd(op[1])
+            elif o == "sub_raise":
+                ac.subscribe(raising)
+                zone.subscribe(raising)
+            elif c is None:
+                continue
+            elif o == "fin":
+                c.transport.peer_eof()
+            elif o == "rst":
+                c.transport.peer_reset()
+            elif o == "data":
+                c.transport.peer_data(bytes.fromhex(op[1]))
+            elif o == "wfail":
+                c.fail_write_at = c.nwrites + op[1]
+            elif o == "status_change":
+                bump()
+                w.console.send(c, w.console.frame_ac_status())
+        # ---- network behaves again
+        maxlat = max([a[1] for a in net.script] + [d["latency"] for _, _, k, d in log.events
+                                                   if k == "NET.connect_attempt"][-2:] + [0.0])
+        net.script.clear()
+        net.default = ("accept", 0.0)
+        for c in net.open_conns():
+            c.fail_write_at = None
+        log.add("ORACLE.start")
+        await asyncio.sleep(2.0 + maxlat + 1.0)
+        await quiesce(loop)
+        out["open_after_T"] = [c.id for c in net.open_conns()]
+        out["initialised"] = w.at.initialised
+        if len(out["open_after_T"]) != 1:
+            out["fail"] = "not-exactly-one-connection-after-recovery-time"
+            return
+        # status probe through the model: a changed set-point must show in the getter
+        sent = 0
+        ok = False
+        for attempt in range(4000):
+            c = net.current()
+            if c is None:
+                await asyncio.sleep(3.0)
+                await quiesce(loop)
+                c = net.current()
+                if c is None:
+                    out["fail"] = "no-connection-while-probing"
+                    return
+            bump()
+            raw = w.console.frame_ac_status()
+            st = w.inst["acs"][0]["status"]
+            want = float(st["set_point"]) if gen == 4 else (st["sp_raw"] + 100) / 10
+            c.transport.peer_data(raw)
+            sent += len(raw)
+            await quiesce(loop)
+            try:
+                got = w.at.air_conditioners[0].target_temperature
+            except Exception as e:
+                got = repr(e)
+            if isinstance(got, (int, float)) and abs(got - want) < 1e-9:
+                ok = True
+                break
+            if sent > MAX_PROBE_BYTES + 200:
+                break
+        out["probe_bytes"] = sent
+        if not ok:
+            out["fail"] = "status-probe-never-delivered"
+            return
+        await quiesce(loop)
+        n0 = len(w.console.frames)
+        r = await H.probe(log, "set_fan_speed", w.at.air_conditioners[0].set_fan_speed(
+            api.AcFanSpeed.LOW))
+        await quiesce(loop)
+        out["cmd_exc"] = repr(r) if isinstance(r, Exception) else None
+        out["cmd_frames"] = [(c_, cmd_["kind"]) for (t, c_, f, cmd_) in w.console.frames[n0:]
+                             if cmd_["kind"] == "ac_control"]
+        out["open_at_end"] = [c.id for c in net.open_conns()]
+        out["done"] = True
+        await w.at.shutdown()
+
+    import pyairtouch.comms.socket as ps
+    psock_errors = ps.QueueOverflowError
+    _, log, st = H.run(main)
+
+    def v(mech, **d):
+        viol.append({"mechanism": mech, "detail": dict(d, ops=case["ops"], gen=gen, level="api"),
+                     "log": H.log_slice(log, 45)})
+
+    if st != "ok":
+        v("client-wedged-loop-quiescent", status=st)
+        return viol, obs
+    if out.get("init") is False:
+        return viol, obs
+    open_now, worst = set(), 0
+    for seq, t, kind, d in log.events:
+        if kind == "NET.open":
+            open_now.add(d["conn"])
+            worst = max(worst, len(open_now))
+        elif kind == "NET.close":
+            open_now.discard(d["conn"])
+    if worst > 1:
+        v("two-connections-open", simultaneously=worst)
+    for seq, t, kind, d in log.events:
+        if kind == "LOG.error" and "Unhandled exception in background task" in d["msg"]:
+            v("background-task-died", exc=d.get("exc"))
+            break
+    if any(k == "LOOP.unhandled" for _, _, k, _ in log.events):
+        v("unhandled-exception-in-loop",
+          event=H.jsonable([e for e in log.events if e[2] == "LOOP.unhandled"][:1]))
+    if "fail" in out:
+        v(out["fail"], oracle=out)
+        return viol, obs
+    if not out.get("done"):
+        v("recovery-oracle-did-not-finish", oracle=out)
+        return viol, obs
+    if not out["initialised"]:
+        v("client-no-longer-initialised-after-faults")
+    obs["probe_status_delivered"] = 1
+    if out["cmd_exc"]:
+        v("probe-command-send-raised", outcome=out["cmd_exc"])
+    elif len(out["cmd_frames"]) != 1 or [out["cmd_frames"][0][0]] != out["open_at_end"]:
+        v("probe-command-not-written", frames=out["cmd_frames"], open=out["open_at_end"])
+    else:
+        obs["probe_cmd_written"] = 1
+    opened = [d["conn"] for _, _, k, d in log.events if k == "NET.open"]
+    closed = {d["conn"] for _, _, k, d in log.events if k == "NET.close"}
+    leaked = [c for c in opened if c not in closed and c not in out["open_at_end"]]
+    if leaked or len(out["open_at_end"]) != 1:
+        v("abandoned-connection-not-closed", leaked=leaked, open=out["open_at_end"])
+    obs["recovered"] = 1
+    obs["api_level_recoveries"] = 1
+    obs["resets_seen"] = max(0, len(opened) - 1)
+    obs["fault_atoms_effective"] = 1
+    return viol, obs
+
+
 def run_case(case):
     if case.get("k") == "fidelity":
         return run_fidelity(case)
+    if case.get("k") == "api":
+        viol, obs = run_api(case)
+        return {"violations": H.cap(viol), "evals": 1, "decided": obs.get("recovered", 0),
+                "obs": obs, "sample": {"gen": case["gen"], "level": "api", "ops": case["ops"]}}
     gen = case["gen"]
     ops = expand(gen, case["ops"])
     out = {}
